@@ -36,7 +36,7 @@ def StudyRpc.crit (cfg : Cfg) : StudyRpc → Crit
   | .complete id f i r => critComplete id f i r
   | .measure id m => critMeasure id m
   | .stop id => critStop id
-  | .create t => critCreate t
+  | .create t => critCreate cfg.createKeepsInfeasible t
   | .delete id => critDelete id
   | .metadata us => critMetadata cfg us
   | .setState s => critSetState s
@@ -46,7 +46,7 @@ theorem stateIndep_of (cfg : Cfg) (x : StudyRpc) (h : ∀ s, x ≠ .setState s) 
   | complete id f i r => exact stateIndep_complete id f i r
   | measure id m => exact stateIndep_measure id m
   | stop id => exact stateIndep_stop id
-  | create t => exact stateIndep_create t
+  | create t => exact stateIndep_create _ t
   | delete id => exact stateIndep_delete id
   | metadata us => exact stateIndep_metadata cfg us
   | setState s => exact absurd rfl (h s)
